@@ -63,6 +63,7 @@ if __name__ == '__main__':
     ap.add_argument('mode', nargs='?', default='BITS')
     ap.add_argument('--extra', default=''); ap.add_argument('--cfg', default='{}'); ap.add_argument('--keep', action='store_true')
     ap.add_argument('--pinned', default=None)
+    ap.add_argument('--full', action='store_true')
     a = ap.parse_args()
     fe = Frontend(keep=a.keep)
     ll, diag = fe.ir(a.harness, a.inst, a.flavour, a.extra.split())
@@ -72,6 +73,17 @@ if __name__ == '__main__':
     if a.pinned: cfg['pinned'] = json.loads(a.pinned)
     r = run_ir(ll, {'name': 'adhoc', 'harness': a.harness, 'inst': a.inst, 'flavour': a.flavour, 'mode': a.mode, 'cfg': cfg})
     fn = r.pop('functions')
-    print(json.dumps(r, indent=1, default=str)[:6000])
+    if a.full:
+        print(json.dumps(r, indent=1, default=str)[:20000])
+    else:
+        print(r['verdict'], 'paths', r['paths'], r['path_kinds'], 'instrs', r['instrs'], 'queries', r['queries'], 'solver_s', r['solver_s'], 'wall_s', r['wall_s'])
+        for w in r['inconclusive']: print('  INCONCLUSIVE:', w)
+        seen = set()
+        for f in r['failures']:
+            k = (f['kind'], f['site'], f['what'])
+            if k in seen: continue
+            seen.add(k)
+            print('  FAIL:', f['kind'], 'site', f['site'], f['what'][:150], 'inputs', [i['value'] for i in f['inputs']][:14], 'where', (f.get('where') or [''])[-1][:80])
+        print('  asserts:', {k: (v['reached'], v['proved'], v['failed']) for k, v in r['asserts'].items()})
     print('functions:', len(fn))
     if a.keep: print(ll)
